@@ -278,39 +278,60 @@ def bool_leaves(e, ctx, out):
 
 
 def r3_sink(chk, fx):
+    """Decided on the explored paths of sink_error (the downcast an undecided outcome, patterns over irrc::Error forking the path):
+    which error classes a path that returns true has assumed.  Independent of how the function spells it — match arms returning bools,
+    a (sunk, expected) tuple and logging afterwards, let-else, helper predicates."""
+    from vlib import absint as A
     cands = [n for n in fx.thir if n.endswith("::sink_error") and "bgpfu::query::RpslEvaluator" in n]
     if len(cands) != 1:
         raise F.AnchorLost("RpslEvaluator::sink_error not found")
     t = fx.thir[cands[0]]
     chk.analysed(t["def"])
-    leaves = []
-    bool_leaves(T.user_body(t), [], leaves)
-    falses = [l for l in leaves if l[0] is False]
+
+    def hook(fn, args, node, interp):
+        if fn.endswith("::downcast_ref"):
+            return ("sym", "DC:" + (node.get("ty") or "?").replace(" ", ""))
+        return None
+    paths = [p for p in A.Interp(fx, hook=hook, crates=("bgpfu",), max_paths=400).explore(cands[0]) if p.end != "abort"]
+    verdicts = [(p, p.ret[1]) for p in paths if p.ret is not None and p.ret[0] == "lit" and isinstance(p.ret[1], bool)]
+    other = [p for p in paths if not (p.ret is not None and p.ret[0] == "lit" and isinstance(p.ret[1], bool))]
     chk.instance("C03/R3", "sink_error can return false (some IRR errors abort the evaluation)", t["def"], loc_of(t.get("sp")),
-                 holds=bool(falses), key="C03/R3 sink_error never-false",
+                 holds=any(v is False for _, v in verdicts), key="C03/R3 sink_error never-false",
                  detail="every IRR error (unknown route-set, 'F' answers, I/O) is swallowed: the resolver returns Ok(empty/partial set) and the policy is emptied or truncated")
+    for p in other:
+        chk.instance("C03/R3", "sink_error result of unrecognised form: %s" % A.vstr(p.ret)[:60], t["def"], loc_of(t.get("sp")),
+                     holds=False, key="C03/R3 sink_error unrecognised-result")
     n = 0
-    for (v, ctx, node) in leaves:
-        if v is False:
+    for p, v in verdicts:
+        if v is not True:
             continue
         n += 1
-        if v is None:
-            chk.instance("C03/R3", "sink_error result of unrecognised form: %s" % T.expr_str(node)[:60], t["def"], loc_of(node.get("sp")),
-                         holds=False, key="C03/R3 sink_error unrecognised-result")
-            continue
-        classes = None
-        for (kind, pat) in ctx:
-            if kind == "let" and pat is not None:
-                c = error_classes(pat)
-                if c is not None:
-                    classes = c if classes is None else (classes & c)
+        top = q = reason = None
+        qs = None
+        for k, w in p.assume.items():
+            if not ("«DC:" in k and "irrc::Error" in k):
+                continue
+            tail = k.split("»", 1)[1]
+            if k.startswith("variant:") and tail == "→Some.0":
+                top = w
+            elif k.startswith("variant:") and tail.endswith("→ResponseErr.0"):
+                qs = (w,)
+            elif k.startswith("variantin:") and tail.endswith("→ResponseErr.0"):
+                qs = tuple(w)
+            elif k.startswith("variant:") and tail.endswith("→ResponseErr.1"):
+                reason = w
+        if top is None:
+            classes = None
+        elif top == "ResponseErr":
+            classes = {(top, x, reason or "*") for x in (qs or ("*",))}
+        else:
+            classes = {(top,)}
         ok = classes is not None and classes <= TOLERATED
         extra = sorted(classes - TOLERATED) if classes else "any error"
         chk.instance("C03/R3", "sink_error returns true only for tolerated error classes (here: %s)" % (sorted(classes) if classes else "ANY"),
-                     t["def"], loc_of(node.get("sp")), holds=ok, key="C03/R3 sink_error sinks %s" % (extra if not ok else "tolerated"),
+                     t["def"], loc_of(t.get("sp")), holds=ok, key="C03/R3 sink_error sinks %s" % (extra if not ok else "tolerated"),
                      detail=None if ok else "an unknown route-set / error answer would yield an empty or partial set that is then installed")
-    chk.floor("C03/R3 sink_error result leaves", len(leaves), 1)
-    # downcast target is irrc::Error
+    chk.floor("C03/R3 sink_error result leaves", len(verdicts), 1)
     # what is classified is the error handed in, as an irrc::Error — not something dug out of another error type: a resolver that wraps
     # the IRR error (the filter-set lookup does, with Error::from, before collect_result) thereby makes it fatal, and unwrapping here
     # would extend the tolerance for single route items to whole objects
